@@ -1177,10 +1177,22 @@ pub fn gen_large(opts: &Opts) -> Vec<Case> {
         let mut eps: Vec<EpSpec> = (0..n)
             .map(|i| ep(format!("r{}", i), "GET", "/vv".into(), RangeSpec { kind: "fromuntil".into(), a: 2 * i, b: 2 * i + 1 }))
             .collect();
-        // one more that conflicts with the last of them: must be refused
-        eps.push(ep("clash".into(), "GET", "/vv".into(), RangeSpec { kind: "from".into(), a: 2 * n - 2, b: 0 }));
         let versions: Vec<Option<usize>> = (0..2 * n + 1).map(Some).collect();
-        out.push(Case { chain, eps, paths: vec!["/vv".into()], methods: vec!["GET".into(), "PUT".into()], versions });
+        // adjacent ranges as well: [c(2i+1), c(2i+2)) on PUT, so that every chain version is a lower bound somewhere
+        let mut eps2 = eps.clone();
+        for i in 0..n {
+            eps2.push(ep(format!("s{}", i), "PUT", "/vv".into(), RangeSpec { kind: "fromuntil".into(), a: 2 * i + 1, b: 2 * i + 2 }));
+        }
+        // registered in a shuffled (but fixed) order: the table must not depend on it
+        let mut eps3 = eps2.clone();
+        eps3.reverse();
+        eps3.rotate_left(n / 2);
+        out.push(Case { chain: chain.clone(), eps: eps2, paths: vec!["/vv".into()], methods: vec!["GET".into(), "PUT".into(), "DELETE".into()], versions: versions.clone() });
+        out.push(Case { chain: chain.clone(), eps: eps3, paths: vec!["/vv".into()], methods: vec!["GET".into(), "PUT".into()], versions: versions.clone() });
+        // ... and one more declaration that conflicts with the last range: must be refused
+        // (registration only: nothing can be looked up after a refused registration)
+        eps.push(ep("clash".into(), "GET", "/vv".into(), RangeSpec { kind: "from".into(), a: 2 * n - 2, b: 0 }));
+        out.push(Case { chain, eps, paths: vec!["/vv".into()], methods: vec!["GET".into()], versions });
     }
     // 6. many variables in one template
     let vs: &[usize] = if opts.thorough { &[8, 16, 17, 32, 33, 64] } else { &[17, 33] };
